@@ -26,6 +26,7 @@ import (
 	"strings"
 	"sync"
 	"sync/atomic"
+	"time"
 
 	remoteexecution "github.com/bazelbuild/remote-apis/build/bazel/remote/execution/v2"
 	re_blobstore "github.com/buildbarn/bb-remote-execution/pkg/blobstore"
@@ -86,14 +87,23 @@ const actionBase = 50000
 
 // ---------------------------------------------------------------- specs
 
+// fault kinds: an error code; cancel = cancel the execution's context and fail
+// the call with Canceled; late = let the call succeed and cancel the context
+// afterwards (the cancellation then hits the batched store between two storage
+// calls, typically while it waits for an upload slot).
 type fault struct {
 	cancel bool
+	late   bool
 	code   int
 }
 
+// aware: the fake stores fail every call made with a cancelled context (as gRPC
+// clients do); otherwise they ignore the context (as many BlobAccess
+// implementations do).
 type storeSpec struct {
 	bs, sem int
 	cas     []int
+	aware   bool
 }
 
 type execSpec struct {
@@ -105,6 +115,7 @@ type execSpec struct {
 	stdout, stderr int
 	logs           []int
 	honest         bool
+	hold           int // upload slots of the shared put semaphore held by another worker thread
 	faults         map[int]fault
 }
 
@@ -147,7 +158,7 @@ func b01(b bool) string {
 }
 
 func (s storeSpec) String() string {
-	return fmt.Sprintf("store bs=%d sem=%d cas=%s", s.bs, s.sem, csv(s.cas))
+	return fmt.Sprintf("store bs=%d sem=%d aware=%s cas=%s", s.bs, s.sem, b01(s.aware), csv(s.cas))
 }
 
 func (e execSpec) String() string {
@@ -161,6 +172,8 @@ func (e execSpec) String() string {
 		f := e.faults[k]
 		if f.cancel {
 			fs = append(fs, fmt.Sprintf("%d:c", k))
+		} else if f.late {
+			fs = append(fs, fmt.Sprintf("%d:w", k))
 		} else {
 			fs = append(fs, fmt.Sprintf("%d:%d", k, f.code))
 		}
@@ -169,9 +182,9 @@ func (e execSpec) String() string {
 	if len(fs) > 0 {
 		faults = strings.Join(fs, ",")
 	}
-	return fmt.Sprintf("exec dv=%s ap=%s dnc=%s act=%d puts=%s st=%d ex=%d f=%s d=%s o=%s e=%s l=%s honest=%s faults=%s",
+	return fmt.Sprintf("exec dv=%s ap=%s dnc=%s act=%d puts=%s st=%d ex=%d f=%s d=%s o=%s e=%s l=%s honest=%s hold=%d faults=%s",
 		b01(e.dv), b01(e.ap), b01(e.dnc), e.act, csv(e.puts), e.st, e.ex, csv(e.files), csv(e.dirs),
-		opt(e.stdout), opt(e.stderr), csv(e.logs), b01(e.honest), faults)
+		opt(e.stdout), opt(e.stderr), csv(e.logs), b01(e.honest), e.hold, faults)
 }
 
 func kv(fields []string) map[string]string {
@@ -192,7 +205,7 @@ func parseStore(line string) (storeSpec, bool) {
 		return storeSpec{}, false
 	}
 	m := kv(f[1:])
-	s := storeSpec{bs: atoi(m["bs"]), sem: atoi(m["sem"]), cas: parseCSV(m["cas"])}
+	s := storeSpec{bs: atoi(m["bs"]), sem: atoi(m["sem"]), cas: parseCSV(m["cas"]), aware: m["aware"] != "0"}
 	if s.sem < 1 {
 		s.sem = 1
 	}
@@ -208,13 +221,15 @@ func parseExec(line string) (execSpec, bool) {
 	e := execSpec{dv: m["dv"] == "1", ap: m["ap"] == "1", dnc: m["dnc"] == "1", act: atoi(m["act"]),
 		puts: parseCSV(m["puts"]), st: atoi(m["st"]), ex: atoi(m["ex"]), files: parseCSV(m["f"]), dirs: parseCSV(m["d"]),
 		stdout: atoi(m["o"]), stderr: atoi(m["e"]), logs: parseCSV(m["l"]), honest: m["honest"] == "1",
-		faults: map[int]fault{}}
+		hold: atoi(m["hold"]), faults: map[int]fault{}}
 	if fs := m["faults"]; fs != "" && fs != "-" {
 		for _, p := range strings.Split(fs, ",") {
 			if i := strings.IndexByte(p, ':'); i > 0 {
 				k := atoi(p[:i])
 				if p[i+1:] == "c" {
 					e.faults[k] = fault{cancel: true, code: int(codes.Canceled)}
+				} else if p[i+1:] == "w" {
+					e.faults[k] = fault{late: true}
 				} else {
 					e.faults[k] = fault{code: atoi(p[i+1:])}
 				}
@@ -230,6 +245,7 @@ type call struct {
 	ac      bool
 	op      string // "fm" | "put"
 	digests []int
+	missing int // FindMissing: number of digests reported missing
 	code    int
 	phase   string
 }
@@ -261,6 +277,13 @@ type env struct {
 	acTry   int
 	acLog   []acWrite // all AC Put calls of the history
 	acData  map[string][]byte
+	aware   bool
+	ctx     context.Context // the execution's context
+	late    bool            // the current call is to be followed by a cancellation
+	sem     *semaphore.Weighted
+	semSize int
+	held    int // slots held by the "other worker thread"
+	yielded int
 }
 
 func newEnv() *env {
@@ -279,18 +302,44 @@ func (e *env) anyFailure() bool {
 // outcome decides the result of the next storage call (caller holds e.mu).
 func (e *env) outcome(ctx context.Context) int {
 	e.idx++
-	if f, ok := e.faults[e.idx]; ok && ctx.Err() == nil {
+	e.late = false
+	dead := e.aware && ctx.Err() != nil
+	if f, ok := e.faults[e.idx]; ok && !dead {
 		e.hit++
-		if f.cancel {
+		switch {
+		case f.cancel:
 			e.cancel()
 			return int(codes.Canceled)
+		case f.late:
+			e.late = true
+			return 0
 		}
 		return f.code
 	}
-	if ctx.Err() != nil {
+	if dead {
 		return int(status.FromContextError(ctx.Err()).Code())
 	}
 	return 0
+}
+
+// afterSuccess runs at the end of a successful storage call (caller holds e.mu).
+// willWait: the batched store is about to ask for an upload slot.
+func (e *env) afterSuccess(willWait bool) {
+	allHeld := e.held > 0 && e.held == e.semSize
+	switch {
+	case e.late && willWait && allHeld:
+		// the flush blocks in semaphore.Acquire (every slot is held by the other
+		// thread) until the context is cancelled
+		time.AfterFunc(300*time.Microsecond, e.cancel)
+	case e.late:
+		e.cancel()
+	case willWait && allHeld && e.ctx.Err() == nil:
+		// nobody is going to cancel: the other thread finishes one of its uploads
+		e.sem.Release(1)
+		e.held--
+		e.yielded++
+	}
+	e.late = false
 }
 
 type fakeStore struct {
@@ -319,8 +368,8 @@ func (s *fakeStore) FindMissing(ctx context.Context, digests digest.Set) (digest
 	for _, d := range digests.Items() {
 		ids = append(ids, idOf(d))
 	}
-	e.calls = append(e.calls, call{ac: s.isAC, op: "fm", digests: ids, code: code, phase: e.phase})
 	if code != 0 {
+		e.calls = append(e.calls, call{ac: s.isAC, op: "fm", digests: ids, code: code, phase: e.phase})
 		return digest.EmptySet, status.Error(codes.Code(code), "injected")
 	}
 	sb := digest.NewSetBuilder(0)
@@ -329,6 +378,8 @@ func (s *fakeStore) FindMissing(ctx context.Context, digests digest.Set) (digest
 			sb.Add(d)
 		}
 	}
+	e.calls = append(e.calls, call{ac: s.isAC, op: "fm", digests: ids, missing: sb.Length(), phase: e.phase})
+	e.afterSuccess(sb.Length() > 0 && e.phase != "caching")
 	return sb.Build(), nil
 }
 
@@ -362,6 +413,7 @@ func (s *fakeStore) Put(ctx context.Context, d digest.Digest, b buffer.Buffer) e
 		if code != 0 {
 			return status.Error(codes.Code(code), "injected")
 		}
+		e.afterSuccess(false)
 		return nil
 	}
 	e.calls = append(e.calls, call{op: "put", digests: []int{id}, code: code, phase: e.phase})
@@ -381,6 +433,7 @@ func (s *fakeStore) Put(ctx context.Context, d digest.Digest, b buffer.Buffer) e
 	} else {
 		e.casIDs[id] = true
 	}
+	e.afterSuccess(false)
 	return nil
 }
 
@@ -510,6 +563,7 @@ func (r *runner) trace() string {
 	defer e.mu.Unlock()
 	fm := "-"
 	var ps []string
+	missing, issued := 0, 0
 	for _, c := range e.calls[e.mark:] {
 		if c.ac {
 			ps = append(ps, "ac-call-in-batched-store")
@@ -523,14 +577,26 @@ func (r *runner) trace() string {
 			ids := append([]int(nil), c.digests...)
 			sort.Ints(ids)
 			fm = fmt.Sprintf("fm:%d:%s", c.code, csv(ids))
+			missing = c.missing
 		case "put":
 			ps = append(ps, fmt.Sprintf("p:%d:%d", c.digests[0], c.code))
+			issued++
 		}
 		if c.op == "put" {
 			r.out.flags["underlying-put"] = true
 		}
 	}
 	e.mark = len(e.calls)
+	if issued < missing {
+		// The only way a blob reported missing is not uploaded: the wait for an
+		// upload slot failed.  Which context was cancelled is what the harness saw.
+		why := "g"
+		if e.ctx.Err() != nil {
+			why = "c"
+		}
+		ps = append(ps, fmt.Sprintf("a:%d:%s", int(codes.Canceled), why))
+		r.out.flags["upload-slot-wait-failed-"+why] = true
+	}
 	return strings.TrimSpace(fm + " " + strings.Join(ps, " "))
 }
 
@@ -687,6 +753,9 @@ func run(lines []string, drv *hx.Driver) (out outcome) {
 		}
 	}
 	e := newEnv()
+	e.aware = st.aware
+	e.semSize = st.sem
+	e.sem = semaphore.NewWeighted(int64(st.sem))
 	for _, d := range st.cas {
 		e.cas[digestOf(d).String()] = true
 		e.casIDs[d] = true
@@ -694,7 +763,7 @@ func run(lines []string, drv *hx.Driver) (out outcome) {
 	r := &runner{drv: drv, out: &out, e: e}
 	cas := &fakeStore{e: e}
 	ac := &fakeStore{e: e, isAC: true}
-	r.batched, r.flush = re_blobstore.NewBatchedStoreBlobAccess(cas, digest.KeyWithoutInstance, st.bs, semaphore.NewWeighted(int64(st.sem)))
+	r.batched, r.flush = re_blobstore.NewBatchedStoreBlobAccess(cas, digest.KeyWithoutInstance, st.bs, e.sem)
 	browserURL, _ := url.Parse("http://browser/")
 	exec := builder.NewCachingBuildExecutor(
 		&spy{BuildExecutor: builder.NewStorageFlushingBuildExecutor(&inner{r: r}, r.wrappedFlusher), r: r},
@@ -711,6 +780,17 @@ func run(lines []string, drv *hx.Driver) (out outcome) {
 		ctx, cancel := context.WithCancel(context.Background())
 		e.mu.Lock()
 		e.idx, e.faults, e.cancel, e.calls, e.mark, e.phase = 0, spec.faults, cancel, nil, 0, "inner"
+		e.ctx, e.late, e.held = ctx, false, 0
+		if spec.hold > 0 { // the other worker thread is in the middle of its own uploads
+			h := spec.hold
+			if h > st.sem {
+				h = st.sem
+			}
+			if e.sem.TryAcquire(int64(h)) {
+				e.held = h
+			}
+		}
+		yieldedBefore := e.yielded
 		hitBefore := e.hit
 		acBefore := len(e.acLog)
 		e.mu.Unlock()
@@ -726,6 +806,18 @@ func run(lines []string, drv *hx.Driver) (out outcome) {
 			}()
 			final = exec.Execute(ctx, nil, nil, digestFunction, requestOf(spec), nil)
 		}()
+		e.mu.Lock()
+		if e.held > 0 { // ... and finishes them after this execution
+			e.sem.Release(int64(e.held))
+			if e.held == st.sem {
+				out.flags["all-upload-slots-held-elsewhere"] = true
+			}
+			e.held = 0
+		}
+		if e.yielded > yieldedBefore {
+			out.flags["other-thread-yielded-a-slot"] = true
+		}
+		e.mu.Unlock()
 		cancel()
 		if final == nil {
 			return
@@ -936,11 +1028,14 @@ func genExec(rng *hx.Rand, st storeSpec, pool int) execSpec {
 		e.logs = append(e.logs, ref())
 	}
 	e.honest = rng.Chance(1, 2)
+	if rng.Chance(1, 3) {
+		e.hold = 1 + rng.Intn(st.sem)
+	}
 	return e
 }
 
 func genStore(rng *hx.Rand, pool int) storeSpec {
-	st := storeSpec{bs: 1 + rng.Intn(5), sem: 1}
+	st := storeSpec{bs: 1 + rng.Intn(5), sem: 1, aware: rng.Chance(1, 2)}
 	if rng.Chance(1, 5) {
 		st.sem = 2 + rng.Intn(3)
 	}
@@ -956,8 +1051,11 @@ func randFault(rng *hx.Rand, uniform *fault) fault {
 	if uniform != nil {
 		return *uniform
 	}
-	if rng.Chance(1, 4) {
+	switch rng.Pick(4, 1, 1) {
+	case 1:
 		return fault{cancel: true, code: int(codes.Canceled)}
+	case 2:
+		return fault{late: true}
 	}
 	return fault{code: errCodes[rng.Intn(len(errCodes))]}
 }
@@ -1042,7 +1140,7 @@ func shrinkFields(lines []string, fails func([]string) bool) []string {
 
 func main() {
 	o := hx.ParseFlags()
-	res := hx.NewResult("pipeline", o, "histories of 1-3 executions through the real caching(flushing(inner)) executors over the real batched store (batch size 1-5, put concurrency 1-4, pre-populated CAS, duplicate digests, all outcomes OK/exit!=0/status!=OK/do_not_cache/invalid request); for every scenario: fault-free, every single storage-call position failing or cancelling the context, all pairs, and every subset of positions when the run has <= 8 (thorough: 10) storage calls, sampled subsets otherwise; non-trivial = at least one underlying CAS Put was issued by the batched store and (an injected fault was hit or an Action Cache entry was written); distinct = hash of the history")
+	res := hx.NewResult("pipeline", o, "histories of 1-3 executions through the real caching(flushing(inner)) executors over the real batched store (batch size 1-5, put concurrency 1-4, pre-populated CAS, context-aware or context-ignoring fake stores, 0..all upload slots of the shared put semaphore held by another worker thread, duplicate digests, all outcomes OK/exit!=0/status!=OK/do_not_cache/invalid request); for every scenario: fault-free, every single storage-call position failing, cancelling the context, or succeeding with the context cancelled right afterwards (so that the batched store's wait for an upload slot fails; really blocking when all slots are held elsewhere), all pairs, and every subset of positions when the run has <= 8 (thorough: 10) storage calls, sampled subsets otherwise; non-trivial = at least one underlying CAS Put was issued by the batched store and (an injected fault was hit or an Action Cache entry was written); distinct = hash of the history")
 	drv, err := hx.StartDriver("pipeline")
 	if err != nil {
 		fmt.Fprintln(os.Stderr, "cannot start model driver:", err)
@@ -1147,6 +1245,7 @@ func main() {
 				}
 				variant(map[int]fault{p: {code: errCodes[rng.Intn(len(errCodes))]}})
 				variant(map[int]fault{p: {cancel: true, code: int(codes.Canceled)}})
+				variant(map[int]fault{p: {late: true}})
 			}
 			// every subset of size >= 2 (small runs) or sampled subsets
 			if n >= 2 && n <= maxSubset && nexec == 1 {
